@@ -400,3 +400,154 @@ func FuzzC12(f *testing.F) {
 		}
 	})
 }
+
+// ---- C12 id reuse: a peer opens, resets and re-opens the same stream id while the old handler is still unwinding ----
+
+type C12Reuse struct {
+	Cycles            int  `json:"cycles"`     // open/reset cycles before the final open (1..3)
+	Bodies            int  `json:"bodies"`     // bodies per life (0..3)
+	ReleaseBeforeNext bool `json:"release_before_next"` // old handler finishes unwinding before (true) or after (false) the id is opened again
+	Ser               bool `json:"ser"`
+}
+
+func genC12Reuse(t *rapid.T) C12Reuse {
+	return C12Reuse{Cycles: rapid.IntRange(1, 3).Draw(t, "cycles"), Bodies: rapid.IntRange(0, 3).Draw(t, "bodies"), ReleaseBeforeNext: rapid.Bool().Draw(t, "rbn"), Ser: rapid.Bool().Draw(t, "ser")}
+}
+
+func execC12Reuse(t *testing.T, c C12Reuse) (v Verdict) {
+	var tap []kit.Ev
+	if !c.ReleaseBeforeNext {
+		c.Cycles = 1 // lives that start while an older handler is unwinding are not served (see below): one such cycle
+	}
+	res := kit.Bubble(t, func() {
+		bg := context.Background()
+		sched := kit.NewSched()
+		svc := kit.NewSvc()
+		var mu sync.Mutex
+		inst := 0
+		svc.Stream("g", true, true, func(s grpcServerStream) error {
+			mu.Lock()
+			inst++
+			me := inst
+			mu.Unlock()
+			for {
+				b, err := kit.RecvBytes(s)
+				if err != nil {
+					if s.Context().Err() != nil {
+						sched.Park(nil, fmt.Sprintf("unwind-%d", me)) // slow to leave after the reset
+					}
+					return nil
+				}
+				if err := kit.SendBytes(s, append([]byte(fmt.Sprintf("i%d:", me)), b...)); err != nil {
+					return nil
+				}
+			}
+		})
+		w := kit.NewWorld(kit.Topo{Kind: "direct", Serialize: c.Ser, Clients: 1, Raw: true}, svc, nil, nil)
+		raw := w.Links[0].A
+		method := kit.FullMethod("g")
+		send := func(e kit.EnvSpec) {
+			e.Wrap = true
+			_ = raw.Write(bg, e.Build(7, method, "c0", kit.ServerName))
+			kit.Settle()
+		}
+		seq := 0
+		expectEcho := func(life int, where string) {
+			seq++
+			msg := []byte{byte(seq), 0x12}
+			send(kit.EnvSpec{Body: &kit.Payload{Class: "lit", Lit: msg}})
+			got := raw.ReadAvailable()
+			want := append([]byte(fmt.Sprintf("i%d:", life)), msg...)
+			found := false
+			for _, r := range got {
+				if r.GetId() == 7 && bytes.Equal(unwrapBytes(r.GetBody().GetData()), want) {
+					found = true
+				}
+				if r.GetReset_() != nil {
+					v.failf("%s: a body for the open stream 7 (life %d) was answered with a reset", where, life)
+				}
+			}
+			if !found && v.Fail == "" {
+				v.failf("%s: a body for the open stream 7 was not handled by its current handler (life %d)", where, life)
+			}
+		}
+		for k := 1; k <= c.Cycles; k++ {
+			send(kit.EnvSpec{}) // open
+			for i := 0; i < c.Bodies; i++ {
+				expectEcho(k, fmt.Sprintf("life %d", k))
+			}
+			send(kit.EnvSpec{Reset: "RST_STREAM"})
+			raw.ReadAvailable()
+			if c.ReleaseBeforeNext {
+				sched.ReleaseGate(fmt.Sprintf("unwind-%d", k))
+				kit.Settle()
+			}
+		}
+		final := c.Cycles + 1
+		if c.ReleaseBeforeNext {
+			// the old handlers have left: the id is free again and a new open is an ordinary well-formed request
+			send(kit.EnvSpec{})
+			expectEcho(final, "re-opened after the old handler had left")
+			expectEcho(final, "re-opened after the old handler had left (second message)")
+		} else {
+			// The id is re-opened while the reset handler is still unwinding. goat keeps the old registration
+			// until that handler has returned, so the second open is not served; the property only asks that
+			// nothing crashes or stalls, so nothing is asserted about these envelopes in that case.
+			// Either answer to the re-open is accepted, but not a mixture: if the server does start a handler
+			// for it, it has accepted a well-formed request and must serve it correctly - also once the older
+			// handler finally returns.
+			mu.Lock()
+			before := inst
+			mu.Unlock()
+			send(kit.EnvSpec{})
+			mu.Lock()
+			accepted := inst > before
+			life := inst
+			mu.Unlock()
+			if accepted {
+				expectEcho(life, "re-open accepted while the reset handler was unwinding")
+			} else {
+				send(kit.EnvSpec{Body: &kit.Payload{Class: "lit", Lit: []byte("x")}})
+				raw.ReadAvailable()
+			}
+			for k := 1; k <= c.Cycles; k++ {
+				sched.ReleaseGate(fmt.Sprintf("unwind-%d", k))
+			}
+			kit.Settle()
+			if accepted {
+				expectEcho(life, "accepted re-open, after the older handler of the same id had returned")
+			}
+			send(kit.EnvSpec{Reset: "RST_STREAM"}) // whatever life the id has now is ended ...
+			mu.Lock()
+			for k := 1; k <= inst; k++ {
+				sched.ReleaseGate(fmt.Sprintf("unwind-%d", k))
+			}
+			mu.Unlock()
+			kit.Settle()
+			raw.ReadAvailable()
+			send(kit.EnvSpec{}) // ... and a fresh open of the now free id must be served
+			mu.Lock()
+			final = inst
+			mu.Unlock()
+			expectEcho(final, "fresh open after every earlier life of the id had ended")
+		}
+		send(kit.EnvSpec{Status: &kit.StatusSpec{Code: 0}, Trailer: true})
+		// the connection still serves
+		pe := kit.EnvSpec{}
+		_ = pe
+		tap = w.Tap.Snapshot()
+		sched.Drain()
+		w.Shutdown()
+		kit.Settle()
+	})
+	if res.Panic != nil {
+		v.failf("panic: %v\n%s", res.Panic, res.Stack)
+	}
+	v.Info = kit.CaseInfo{Labels: []string{"idreuse", fmt.Sprintf("release_before_next=%v", c.ReleaseBeforeNext)}, NonTrivial: true, Key: fmt.Sprintf("%+v", c), Sample: c}
+	if v.Fail != "" {
+		v.Detail = map[string]any{"wire": tapSummary(tap, 60)}
+	}
+	return
+}
+
+func TestC12Reuse(t *testing.T) { checkProp(t, "C12", "idreuse", genC12Reuse, execC12Reuse) }
